@@ -34,6 +34,15 @@ CLAIMS = {
              "provenance queries). 'A rejected update changes nothing' is CosmWasm's revert.",
         technique="per-field value provenance over storage writers + guarded-site reachability on MIR",
         ref="6/C20"),
+    "C17": dict(
+        text="Decides the structural clauses only: every BankMsg::Send / non-empty funds in the workspace carries an amount that was "
+             "observed non-zero on every path (3 genuine dispatcher sites are known findings; any other unguarded site is a violation); "
+             "keeper amount = own balance x keeper rate in the same denom; forwarded shares are balance - keeper of the same denom "
+             "(complement: nothing retained); index update last and after the bSei share; operand roles of the share formula and "
+             "offer/ask denom pairing in the swap computation. NOT decided: offer <= holdings and the share equality at the oracle "
+             "price (numeric).",
+        technique="guarded-site reachability + operand-role provenance on MIR expressions; known-findings by exact key",
+        ref="6/C17"),
 }
 
 NA = {
